@@ -101,6 +101,8 @@ structure Facts where
   reach : Std.HashSet Nat := {}
   reachList : List Nat := []
   queries : List (Nat × Nat × Nat × Nat) := []
+  /-- `resolve f c static|- byType|-` : inputs of the ResolveCallee model (C12) -/
+  resolves : List (Nat × Nat × Option Nat × List Nat) := []
   bad : List String := []
 
 def Facts.prog (F : Facts) : Prog :=
@@ -150,6 +152,14 @@ def parseLine (F : Facts) (line : String) : Facts :=
     match f1.toNat?, r1.toNat?, f2.toNat?, r2.toNat? with
     | some a, some b, some c, some d => { F with queries := (a, b, c, d) :: F.queries }
     | _, _, _, _ => badline
+  | ["resolve", f, c, st, bt] =>
+    match f.toNat?, c.toNat?, parseList String.toNat? bt with
+    | some f, some c, some bt =>
+      if st == "-" then { F with resolves := (f, c, none, bt) :: F.resolves }
+      else match st.toNat? with
+        | some g => { F with resolves := (f, c, some g, bt) :: F.resolves }
+        | none => badline
+    | _, _, _ => badline
   | _ => badline
 
 partial def readAll (h : IO.FS.Stream) (F : Facts) : IO Facts := do
